@@ -1,4 +1,4 @@
-from typing import Dict, Optional
+from typing import Dict, List, Optional
 
 from . import ast
 from .grammar import ODataLexer, ODataParser  # type: ignore
@@ -38,11 +38,35 @@ class AliasRewriter(NodeTransformer):
             for k, v in self.field_aliases.items()
         }
 
+        # Lambda variables that are in scope, these shadow aliases of the same name:
+        self._bound: List[ast.Identifier] = []
+
     def visit_Identifier(self, node: ast.Identifier) -> ast._Node:
         """:meta private:"""
-        if node in self.replacements:
+        if node in self.replacements and node not in self._bound:
             return self.replacements[node]
         return node
+
+    def visit_Call(self, node: ast.Call) -> ast._Node:
+        """:meta private:"""
+        # The function name is not a field reference, only rewrite the arguments:
+        return ast.Call(node.func, [self.visit(arg) for arg in node.args])
+
+    def visit_NamedParam(self, node: ast.NamedParam) -> ast._Node:
+        """:meta private:"""
+        # The parameter name is not a field reference, only rewrite its value:
+        return ast.NamedParam(node.name, self.visit(node.param))
+
+    def visit_Lambda(self, node: ast.Lambda) -> ast._Node:
+        """:meta private:"""
+        # The lambda variable is not a field reference either, and it hides an
+        # alias with the same name inside the lambda's expression:
+        self._bound.append(node.identifier)
+        try:
+            expression = self.visit(node.expression)
+        finally:
+            self._bound.pop()
+        return ast.Lambda(node.identifier, expression)
 
     def visit_Attribute(self, node: ast.Attribute) -> ast._Node:
         """:meta private:"""
